@@ -363,7 +363,6 @@ func init() {
 				orParams += nm.Name + ","
 			}
 		}
-		orFormat = strings.ReplaceAll(orFormat, "object ", "objectID ")
 		if orParams != "object,relation," {
 			return Result{}, fmt.Errorf("tuple.ToObjectRelationString: parameters are %q", orParams)
 		}
